@@ -97,7 +97,9 @@ def _parse_subst(arg):
     if not m:
         raise Undecided("bad //@subst: " + arg)
     unesc = lambda s: s.replace("\\/", "/")
-    return m.group(1).strip() or "subst", unesc(m.group(2)), unesc(m.group(3))
+    # replacement: only \1..\9 are back-references, every other backslash is literal
+    rp = re.sub(r"\\(?!\d)", r"\\\\", unesc(m.group(3)))
+    return m.group(1).strip() or "subst", unesc(m.group(2)), rp
 
 
 class Unit:
